@@ -660,8 +660,9 @@ def _closure_runs_on_element_of(P, clo, base):
         return False
     pev = evaluate(parent)
     for bb, st in pev.sites.items():
-        if st.callee[0] in ("Iterator::all", "Iterator::any", "Iterator::map", "Iterator::for_each") and len(st.args) == 2:
-            c = B.peel(st.args[1])
+        if st.callee[0] in ("Iterator::all", "Iterator::any", "Iterator::map", "Iterator::for_each", "Iterator::try_for_each", "Iterator::fold", "Iterator::try_fold", "Iterator::filter", "Iterator::position", "Iterator::find", "Iterator::filter_map", "Iterator::flat_map", "Iterator::map_while", "Iterator::take_while", "Iterator::skip_while", "Iterator::inspect") and len(st.args) in (2, 3):
+            # (the closure only runs when the iterator yields an element: fold / try_fold take it as their third argument)
+            c = B.peel(st.args[-1])
             if c.op == "agg" and c.a[0][0] == "closure" and c.a[0][1] == clo.key and c.a[1]:
                 cap = B.peel(strip_sites(c.a[1][0]))
                 src = strip_sites(st.args[0])
